@@ -140,6 +140,10 @@ pub fn run(ctx: &Ctx) -> Report {
                     scenarios.push((k.name().into(), vec![Op::arg(K::SetRefresh, 2), Op::new(K::Sleep), Op::arg(K::SetRefresh, 1)], true));
                     if ctx.tier_thorough {
                         for s in syms(spec) {
+                            // a symbol that itself selects a mode could make the final call a legitimate no-op
+                            if s.iter().any(|o| matches!(o.k, K::SetRefresh | K::SetLut)) {
+                                continue;
+                            }
                             for (a, b) in [(2u32, 1u32), (1, 2)] {
                                 let mut v = vec![Op::arg(K::SetRefresh, a)];
                                 v.extend(s.clone());
